@@ -109,7 +109,11 @@ def eigh_finite():
     F, wi, wj, ey = _run_eigh_jvp(real=False)
     fin = lambda x: z3.And(z3.Not(z3.fpIsNaN(x)), z3.Not(z3.fpIsInf(x)))
     hyps = [fin(wi.t), fin(wj.t), z3.Or(z3.fpEQ(ey.t, fpv(0.0)), z3.fpEQ(ey.t, fpv(1.0)))]
-    st, be, det, mod, wl = discharge(dict(hyps=hyps, goal=fin(F.t)), 120000)
+    # the two halves of 'finite' are discharged separately (each is a much smaller bit-blasted query) with a budget that survives a fully loaded machine
+    st, be, det, mod, wl = discharge(dict(hyps=hyps, goal=z3.Not(z3.fpIsNaN(F.t))), 600000)
+    if st == DISCHARGED:
+        st2, be2, det2, mod2, wl2 = discharge(dict(hyps=hyps, goal=z3.Not(z3.fpIsInf(F.t))), 600000)
+        st, be, det, mod, wl = st2, be2, det2, mod2, wl + wl2
     return [ob("C18.eigh.finite", st, backend=be + "/Float64", wall=wl, witness=mod, functions=["linalg_utils._eigh_jvp"], witness_class="non-finite-F",
                detail=det or "Fmat[i,j] = 1/eji - eye is finite for all finite w_i, w_j (eji = 0 -> 1, |eji| < 1e-5 -> 1e200)")]
 
@@ -282,7 +286,7 @@ class _Body(Exception):
         self.carry, self.ys = carry, ys
 
 
-def density(kind, norb=3, nchol=1, flip=False):
+def density(kind, norb=3, nchol=1, flip=False, nocc=1):
     """C18.opt.density.<kind>: the density matrix that optimize() carries from one SCF iteration to the next is
         rhf: 2 sum_{i < nocc} v_i v_i^T,   uhf: sum_{i < nocc_s} v_i^s v_i^s^T   (v_i = eigenvectors in ascending eigenvalue order, the contract of eigh),
     for ALL eigenvector matrices V (symbolic) and independently of the sign convention applied to the columns (both answers of the sign test are enumerated);
@@ -292,7 +296,7 @@ def density(kind, norb=3, nchol=1, flip=False):
     from vc.jxvc.field import is_obj
     from contracts.wf import Case
     t0 = time.time()
-    nel = (1, 1) if kind == "rhf" else (2, 1)
+    nel = (nocc, nocc) if kind == "rhf" else (nocc + 1, nocc)
     c = Case(kind, norb, nel, nchol=nchol, complex_trial=False, spin_dep=(kind != "rhf"))
     nspin = 1 if kind == "rhf" else 2
     inpv = H.Inputs(40)
@@ -337,7 +341,7 @@ def density(kind, norb=3, nchol=1, flip=False):
     wave_x = dict(mo_coeff=jnp.asarray(C0[:, :nel[0]])) if kind == "rhf" else dict(mo_coeff=[jnp.asarray(C0[:, :nel[0]]), jnp.asarray(C0[:, :nel[1]])])
     import jax
     ham_s, wave_s = jax.tree_util.tree_map(np.asarray, ham_x), jax.tree_util.tree_map(np.asarray, wave_x)
-    name = f"C18.opt.density.{kind}[norb={norb},flip={int(flip)}]"
+    name = f"C18.opt.density.{kind}[norb={norb},nel={nel[0]}+{nel[1]},flip={int(flip)}]"
     fns = [f"wavefunctions.{kind}.optimize"]
     try:
         evaluate(sp, c.trial.optimize, (ham_s, wave_s), (dict(ham_x), wave_x), scan_hook=scan_hook, prim_hook={"eigh": h_eigh, "argmax": h_argmax, "abs": h_abs, "lt": h_lt})
